@@ -108,7 +108,19 @@ def s1(ctx, rep):
     fa = [x for x in walk_shallow(r.node) if isinstance(x, ast.Call) and fn_name(x) in ("findall", "finditer") ]
     if len(fa) != 1:
         raise AnchorError("retrieve: expected one re.findall")
-    pat = fold_str(ctx, r, argn(fa[0], 0))
+    # re.findall(pattern, text) / re.finditer(..), or a compiled pattern's method: <P>.findall(text) with P = re.compile(pattern)
+    pat_e, txt_e, plain = argn(fa[0], 0), argn(fa[0], 1), len(fa[0].args) == 2 and not fa[0].keywords
+    recv_ = fa[0].func.value if isinstance(fa[0].func, ast.Attribute) else None
+    if recv_ is not None and U(recv_) != "re":
+        from ..engine import deref as _dr
+        cdef = _dr(r, recv_)
+        if isinstance(cdef, ast.Name):
+            cdef = r.module.constants.get(cdef.id, cdef)
+        if not (isinstance(cdef, ast.Call) and fn_name(cdef) == "compile" and cdef.args):
+            raise AnchorError(f"retrieve: `{U(recv_)}` is not a pattern compiled with re.compile(<constant>)")
+        pat_e, txt_e = cdef.args[0], argn(fa[0], 0)
+        plain = len(cdef.args) == 1 and not cdef.keywords and len(fa[0].args) == 1 and not fa[0].keywords
+    pat = fold_str(ctx, r, pat_e)
     if pat is None or "\x00" in pat:
         raise AnchorError("retrieve: regular expression is not a foldable constant")
     rprefix, groups, rest, sc = regex_shape(pat)
@@ -117,12 +129,12 @@ def s1(ctx, rep):
     # both sides use the same constant
     tagw = [U(v.value) for v in ast.walk(argn(prints[0], 0)) if isinstance(v, ast.FormattedValue)
             and const_str(ctx, w, v.value) is not None]
-    tagr = [n.id for n in ast.walk(argn(fa[0], 0) if not isinstance(argn(fa[0], 0), ast.Name) else
-                                   local_defs(r, argn(fa[0], 0).id)[0]) if isinstance(n, ast.Name) and n.id.isupper()]
+    tagr = [n.id for n in ast.walk(pat_e if not isinstance(pat_e, ast.Name) else
+                                   local_defs(r, pat_e.id)[0]) if isinstance(n, ast.Name) and n.id.isupper()]
     rep.put(bool(tagw) and set(tagw) == set(tagr), "S1", "agreement", "report tag: same constant on both sides", r, fa[0],
             f"{tagw} / {tagr}")
     # exactly one group, covering a brace-delimited payload that cannot span lines; no flags
-    ok = len(groups) == 1 and not rest and len(fa[0].args) == 2 and not fa[0].keywords
+    ok = len(groups) == 1 and not rest and plain
     if ok:
         sub = list(groups[0][1][3])
         ok = len(sub) == 3 and sub[0] == (sc.LITERAL, ord("{")) and sub[2] == (sc.LITERAL, ord("}")) and \
@@ -132,7 +144,7 @@ def s1(ctx, rep):
     # the searched text is the whole captured output: the parameter joined with newlines, nothing filtered out, and
     # the pattern is searched (findall), not anchored at line starts - reports may follow other output on the same line
     param = [p for p in r.params][0]
-    txt = argn(fa[0], 1)
+    txt = txt_e
     if isinstance(txt, ast.Name):
         ds = [d for d in local_defs(r, txt.id) if not isinstance(d, tuple)]
         txt = ds[0] if len(ds) == 1 else txt
@@ -167,8 +179,12 @@ def s1(ctx, rep):
             for x in walk_shallow(st):
                 from ..engine import deref
                 a0 = deref(r, argn(x, 0)) if isinstance(x, ast.Call) and fn_name(x) == "append" and x.args else None
-                if isinstance(a0, ast.Call) and U(a0.func) == "json.loads" and U(argn(a0, 0)) == tv:
-                    ok = True
+                if isinstance(a0, ast.Call) and U(a0.func) == "json.loads":
+                    pl = deref(r, argn(a0, 0))
+                    # the match itself (findall with one group), or group 1 of the match object (finditer)
+                    if U(argn(a0, 0)) == tv or (fn_name(fa[0]) == "finditer" and isinstance(pl, ast.Call) and fn_name(pl) == "group"
+                                               and U(pl.func.value) == tv and len(pl.args) == 1 and U(pl.args[0]) == "1"):
+                        ok = True
     rep.put(ok, "S1", "agreement", "retrieve: json.loads of each match appended in match order", r, None, "")
 
 
